@@ -58,6 +58,9 @@ Inductive site :=
 | StRecvEvent (k : N) (r : rkind) (ended : bool)   (* an event for the receiver; ended = state.is_recv_end_stream() *)
 | StPushQueued (k : N)                       (* Inner::recv_push_promise: a promise was queued on parent k *)
 | StWork (w : work)
+| StOwnWork (w : work)                       (* the same entry reached from inside the connection task with no task slot (`&mut None`):
+                                                Recv::recv_data releasing the padding of a DATA frame; the running connection task
+                                                flushes the queues itself before it parks *)
 | StUserPing (was_empty : bool)              (* UserPings::send_ping; the ping was accepted iff the cell was EMPTY *)
 | StPong (was_pending : bool)                (* UserPingsRx::receive_pong *)
 | StPingClosed.                              (* Drop for UserPingsRx *)
@@ -73,6 +76,7 @@ Definition notify_of (s : site) : list slot :=
   | StRecvEvent k _ _ => [SlRecv k]
   | StPushQueued k => [SlPush k]
   | StWork _ => [SlConn]
+  | StOwnWork _ => []
   | StUserPing true => [SlPing]
   | StUserPing false => []
   | StPong true => [SlPong]
